@@ -10,11 +10,15 @@ import (
 	"verif/world"
 )
 
-var crashNoteRe = regexp.MustCompile(`effect \d+ \(([a-zA-Z.]+) by ([a-z]*)`)
+var crashNoteRe = regexp.MustCompile(`(?:effect|Atomix write) \d+ \(([a-zA-Z.]+) by ([a-z]*)`)
 
 // c07Run runs the scenario derived from scenarioSeed with the process killed just before its k-th persisted
 // effect (store write, device Set, topology write), optionally a second time k2 effects after the restart.
-func c07Run(c *fw.Case, scenarioSeed uint64, k, k2 int) {
+func c07Run(c *fw.Case, scenarioSeed uint64, k, k2 int) { c07RunAt(c, scenarioSeed, k, k2, false) }
+
+// c07RunAt: with rpc set, k counts the individual Atomix write RPCs of the system under test instead of decorated
+// calls, so the kill can fall between the two Atomix writes of one store method
+func c07RunAt(c *fw.Case, scenarioSeed uint64, k, k2 int, rpc bool) {
 	p := &engine.Profile{Targets: []string{"t1", "t2"}, MinOps: 3, MaxOps: 6, PMulti: 40, PPoison: 15, PEq: 5, PDevReject: 10, PDelete: 30, PRollback: 15, PEnv: 10, PNoWait: 50, PSync: 20, PStartOffline: 20, PDevFault: 5, Paths: "rich"}
 	opts := world.Options{Targets: p.Targets}
 	w, err := world.New(opts)
@@ -25,7 +29,11 @@ func c07Run(c *fw.Case, scenarioSeed uint64, k, k2 int) {
 	defer w.Close()
 	steps := engine.GenScenario(fw.NewRng(scenarioSeed), p, w.Schema)
 	e := &engine.Exec{C: c, W: w, P: p, Steps: steps, Opts: opts, SecondCrash: k2}
-	w.CrashBeforeEffect(int64(k))
+	if rpc {
+		w.CrashBeforeRPC(int64(k))
+	} else {
+		w.CrashBeforeEffect(int64(k))
+	}
 	e.RunSteps()
 	e.Settle(8*time.Second, 120*time.Second)
 	j := e.Judge()
@@ -33,6 +41,9 @@ func c07Run(c *fw.Case, scenarioSeed uint64, k, k2 int) {
 	e.CancelAll()
 	s2Report(c, "C07", e, j)
 	c.Count("crashes_injected", int64(e.Crashes))
+	if rpc {
+		c.Count("crashes_injected_between_atomix_writes", int64(e.Crashes))
+	}
 	site := "none"
 	for _, ev := range w.Events() {
 		if ev.Kind == "env.crash" {
@@ -47,43 +58,60 @@ func c07Run(c *fw.Case, scenarioSeed uint64, k, k2 int) {
 	}
 	c.Class(fmt.Sprintf("scenario=%x crashes=%d site=%s", scenarioSeed&0xffff, e.Crashes, site))
 	if e.Crashes > 0 {
-		c.Distinct("crash_point", fmt.Sprintf("%x/%d/%d", scenarioSeed, k, k2))
+		c.Distinct("crash_point", fmt.Sprintf("%x/%d/%d/%v", scenarioSeed, k, k2, rpc))
 	}
 }
 
 func init() {
 	const quickScenarios, quickK = 3, 150
 	const thoroughScenarios, thoroughK = 60, 200
+	// kills between individual Atomix writes: one (thorough: 20) enumerated scenario x every write RPC + PRNG placements
+	const quickRPCk, quickRPCrandom, thoroughRPCscenarios, thoroughRPCk, thoroughRPCrandom = 260, 60, 20, 320, 2000
 	fw.Register(&fw.Check{ID: "C07", Level: "fault_enumeration",
-		Technique: "runtime monitoring with fault injection: the process is killed (all its goroutines park for ever at the next decorated call) just before the k-th persisted effect, for every k of enumerated scenarios and for PRNG (scenario, k) and (k1, k2) placements; a new incarnation is started on the same Atomix cluster and devices; end state vs crash-independent sequential model + order monitor + fixed point",
-		Rule: "quick: 3 scenarios x every k in 1..150 (k beyond the scenario's last effect is a crash-free run, counted trivial) + 100 PRNG (scenario, k) + 40 PRNG pairs (k1, k2 effects after the restart); " +
-			"non-trivial = at least one kill happened; distinct_nontrivial = distinct (scenario, k1, k2) placements at which a kill actually happened",
-		Assumptions: append([]string{"a kill is modelled at decorated-call granularity: store writes, device Sets and topology writes are atomic with respect to the kill (the gap inside configuration.Update between the path-value commit and the entry update is not addressed)"}, s2Assumptions...),
+		Technique: "runtime monitoring with fault injection: the process is killed (all its goroutines park for ever at their next decorated call or Atomix RPC) just before the k-th persisted effect - counted in decorated calls (store write, device Set, topology write) and, in a second family of cases, in individual Atomix write RPCs, which places kills between the two Atomix writes of one store method - for every k of enumerated scenarios and for PRNG (scenario, k) and (k1, k2) placements; a new incarnation is started on the same Atomix cluster and devices; end state vs crash-independent sequential model + order monitor + fixed point",
+		Rule: "quick: 3 scenarios x every k in 1..150 decorated effects (k beyond the scenario's last effect is a crash-free run, counted trivial) + 100 PRNG (scenario, k) + 40 PRNG pairs (k1, k2 effects after the restart) + 1 scenario x every k in 1..260 Atomix write RPCs + 60 PRNG (scenario, RPC k); " +
+			"non-trivial = at least one kill happened; distinct_nontrivial = distinct (scenario, k1, k2, granularity) placements at which a kill actually happened",
+		Assumptions: append([]string{"a kill parks every goroutine of the system under test at its next decorated call or unary Atomix RPC; an RPC that was already in flight completes (it may or may not have landed in a real crash either)",
+			"device requests and topology writes are atomic with respect to the kill"}, s2Assumptions...),
 		DistinctSet: "crash_point", CaseTimeout: 300e9,
-		Floors: map[string]int64{"crashes_injected": 300, "executions_reaching_final_state": 400},
+		Floors: map[string]int64{"crashes_injected": 400, "crashes_injected_between_atomix_writes": 150, "executions_reaching_final_state": 500},
 		Cases: func(tier string) int {
 			if tier == "thorough" {
-				return thoroughScenarios*thoroughK + 3000
+				return thoroughScenarios*thoroughK + 3000 + thoroughRPCscenarios*thoroughRPCk + thoroughRPCrandom
 			}
-			return quickScenarios*quickK + 140
+			return quickScenarios*quickK + 140 + quickRPCk + quickRPCrandom
 		},
 		Run: func(c *fw.Case) {
-			ns, nk := quickScenarios, quickK
+			ns, nk, nrs, nrk := quickScenarios, quickK, 1, quickRPCk
+			nRandom := 140
 			if c.Tier == "thorough" {
-				ns, nk = thoroughScenarios, thoroughK
+				ns, nk, nrs, nrk = thoroughScenarios, thoroughK, thoroughRPCscenarios, thoroughRPCk
+				nRandom = 3000
 			}
-			if c.Index < ns*nk {
-				sc := c.Index / nk
-				c07Run(c, fw.Derive(c.Seed, "C07-scenario", fmt.Sprint(sc)), 1+c.Index%nk, 0)
+			i := c.Index
+			if i < ns*nk {
+				sc := i / nk
+				c07Run(c, fw.Derive(c.Seed, "C07-scenario", fmt.Sprint(sc)), 1+i%nk, 0)
 				return
 			}
+			i -= ns * nk
 			r := c.Rng.Fork("placement")
-			sc := fw.Derive(c.Seed, "C07-random-scenario", fmt.Sprint(c.Index))
-			k := 1 + r.Intn(120)
-			k2 := 0
-			if c.Index%7 < 2 {
-				k2 = 1 + r.Intn(60)
+			if i < nRandom {
+				sc := fw.Derive(c.Seed, "C07-random-scenario", fmt.Sprint(c.Index))
+				k := 1 + r.Intn(120)
+				k2 := 0
+				if c.Index%7 < 2 {
+					k2 = 1 + r.Intn(60)
+				}
+				c07Run(c, sc, k, k2)
+				return
 			}
-			c07Run(c, sc, k, k2)
+			i -= nRandom
+			if i < nrs*nrk {
+				sc := i / nrk
+				c07RunAt(c, fw.Derive(c.Seed, "C07-scenario", fmt.Sprint(sc)), 1+i%nrk, 0, true)
+				return
+			}
+			c07RunAt(c, fw.Derive(c.Seed, "C07-random-scenario", fmt.Sprint(c.Index)), 1+r.Intn(220), 0, true)
 		}})
 }
